@@ -355,6 +355,21 @@ def choice_pair() -> dict:
     }
 
 
+def stopped_branch() -> dict:
+    """r -> x (fails with failPipeline=False: ends STOPPED, the workflow goes on) next to r -> a -> y: whatever the
+    order in which x's CompleteWorkflow and the other branch's messages arrive, a and y run."""
+    return {
+        "name": "stopped_branch",
+        "confluent": True,
+        "stages": [
+            st("r"),
+            st("x", ["r"], [{"kind": "term"}], ctx={"failPipeline": False}),
+            st("a", ["r"], [dict(OK, out=["a_o"]), dict(OK, out=["a_o2"])]),
+            st("y", ["a"], [dict(OK, out=["y_o"])]),
+        ],
+    }
+
+
 CONFLUENT_FAMILY = [
     lambda: chain(3),
     lambda: diamond(True),
@@ -374,6 +389,7 @@ CONFLUENT_FAMILY = [
     synthetic,
     or_split,
     skip_stage,
+    stopped_branch,
 ]
 
 
